@@ -55,6 +55,11 @@ def _mk_symbols(spec):
         elif k == 'fun':
             mul, add = sp['mul'], sp['add']
             out[name] = (lambda mul, add: (lambda x: x * mul + add))(mul, add)
+        elif k == 'counter':
+            def bump(what=None, _log=None):
+                bump.log.append(what)
+            bump.log = []
+            out[name] = bump
         elif k == 'cm':
             d = sp['d']
 
@@ -116,7 +121,14 @@ def reference_build(build):
     values = {}
     top_values = {}      # only entries of the top-level mapping are visible as names / through ayns.cfg
     failed = {}
-    for ev in build['evals']:
+    # entries are evaluated on first use: one that reads another entry of the document waits for it
+    pending = list(build['evals'])
+    order = []
+    while pending:
+        ready = next((ev for ev in pending if not any(o is not ev and _is_top(o) and _mentions(ev, o['key']) for o in pending)), pending[0])
+        pending.remove(ready)
+        order.append(ready)
+    for ev in order:
         ns = {}
         ns.update(cfg)
         ns.update(top_values)
@@ -137,6 +149,8 @@ def reference_build(build):
                         val = val(ev['call_after'])
                     except Exception as e:      # raised in the client's own call, outside any build
                         val = ['raised-when-called', type(e).__name__]
+                if ev.get('iter_after'):
+                    val = [list(x) if isinstance(x, tuple) else x for x in val]
             else:
                 val = eval(compile(_code_text(ev), '<ref>', 'eval'), ns)
             values[ev['key']] = val
@@ -144,9 +158,15 @@ def reference_build(build):
                 top_values[ev['key']] = val
         except Exception as e:
             failed[ev['key']] = type(e).__name__
+    if 'bump' in syms:
+        values['__bump__'] = sorted(map(str, syms['bump'].log))     # how often the code of side-effecting entries ran
     if failed:
         return None, sorted(set(failed.values())), {k: observe.native(v) for k, v in values.items()}
     return {k: observe.native(v) for k, v in values.items()}, None, None
+
+
+def _is_top(ev):
+    return ev['where'] == 'top' or ev['kind'] == 'fstr_implicit'
 
 
 def _top_level_keys(build):
@@ -190,7 +210,7 @@ def _gen_env(r, variant, flags):
     if flags['extra'] and (not flags['vary'] or r.random() < 0.5):
         cfg.append(['extra', 900 + variant])         # programs read it: NameError in the builds that lack it
     r.shuffle(cfg)
-    syms = {'__dsym': {'k': 'val', 'v': 70 + variant}, 's1': {'k': 'val', 'v': 10 * (variant + 1)}, 'scale': {'k': 'fun', 'mul': 2 + variant, 'add': variant},
+    syms = {'bump': {'k': 'counter'}, '__dsym': {'k': 'val', 'v': 70 + variant}, 's1': {'k': 'val', 'v': 10 * (variant + 1)}, 'scale': {'k': 'fun', 'mul': 2 + variant, 'add': variant},
             'ctxm': {'k': 'cm', 'd': variant}}
     if flags['shared'] and r.random() < 0.6:
         syms['shared'] = {'k': 'val', 'v': 1000 + variant}     # a symbol shadows the config entry of the same name
@@ -221,7 +241,12 @@ def _gen_evals(r, env, n):
             else:
                 lines = g.program(max_stmts=r.choice([0, 1, 2, 4, 6]))
             ev = {'key': key, 'kind': 'eval', 'lines': lines, 'features': sorted(g.features)}
-            if r.random() < 0.12 and len(lines[-1]) < 300:
+            if r.random() < 0.06:
+                # the value is a one-shot iterator: it is the client who consumes it, after the build
+                ev['lines'] = lines[:-1] + [r.choice(['(x_ * 2 for x_ in cl)', 'iter(cl)', 'zip(cl, cl)', 'map(scale, cl)', 'filter(None, cl)', 'reversed(cl)', 'enumerate(cl)'])]
+                ev['iter_after'] = True
+                ev['features'] = sorted(set(ev['features']) | {'iterator_value'})
+            if 'iter_after' not in ev and r.random() < 0.12 and len(lines[-1]) < 300:
                 # the value is a function that reads names only when it is called - which the client does after the build
                 funs = [n for n, k in g.locals.items() if k == 'fun1']
                 if funs and r.random() < 0.5:
@@ -264,6 +289,12 @@ def generate(r, tier, index):
                 if last['kind'] == 'eval' and 'call_after' not in last:
                     atom = first['key']
                     last['lines'][-1] = '[' + last['lines'][-1] + ', ' + (atom if kd != 'str' else f'len({atom})') + ']'
+    if r.random() < 0.12:
+        # an entry evaluated for its side effect (value None), read more than once by other entries - before and after it
+        target = {'key': 'eb', 'kind': 'eval', 'lines': r.choice([["bump('eb')"], ["bump(ca)", "None"], ["x_ = [bump(cs)]", "x_[0]"]]), 'features': ['side_effect_once'], 'where': 'top'}
+        reader = {'key': 'er', 'kind': 'eval', 'lines': [r.choice(['[eb, eb, ca]', '[eb is None, eb, cb]', '(eb, eb, eb, 1)[-1]'])], 'features': ['side_effect_once'], 'where': r.choice(['top', 'nested_map'])}
+        reader2 = {'key': 'es', 'kind': 'eval', 'lines': ['[eb, cb]'], 'features': ['side_effect_once'], 'where': 'top'}
+        base_evals = base_evals[:1] + r.choice([[reader, target], [target, reader], [reader, target, reader2]])
     builds = []
     for bi in range(n_builds):
         reuse = bi > 0 and r.random() < 0.75
@@ -368,6 +399,10 @@ def _do_build(build, fs, rec, unique=None):
         else:
             b.add_source(text, raw_yaml=True, filename=build['filename'])
         root = b.build()
+        active = syms
+        if build['ctx'] == 'reuse' and _PREV_CTX:
+            active = _PREV_CTX[1]
+        n0 = len(active['bump'].log) if 'bump' in active else 0
         if build['ctx'] == 'default':
             EvalContext.set_default_eval_symbols(syms)
             cfg = Config(root)
@@ -376,7 +411,7 @@ def _do_build(build, fs, rec, unique=None):
         else:
             EvalContext.set_default_eval_symbols({})    # process-wide defaults are configuration: this client uses none
             ctx_obj = EvalContext(syms)
-            _PREV_CTX[:] = [ctx_obj]
+            _PREV_CTX[:] = [ctx_obj, syms]
             cfg = Config(root, eval_ctx=ctx_obj)
         rec['status'] = 'ok'
         vals = {}
@@ -387,7 +422,11 @@ def _do_build(build, fs, rec, unique=None):
                     v = v(ev['call_after'])    # after the build: the function resolves its free names now
                 except Exception as e:
                     v = ['raised-when-called', type(e).__name__]
+            if ev.get('iter_after'):
+                v = [list(x) if isinstance(x, tuple) else x for x in v]      # the client consumes the iterator now
             vals[ev['key']] = observe.native(v)
+        if 'bump' in active:
+            vals['__bump__'] = observe.native(sorted(map(str, active['bump'].log[n0:])))
         rec['values'] = vals
     except Exception as e:
         rec['status'] = 'error'
@@ -515,7 +554,7 @@ def execute(sc):
             diff = [k for k in exp['values'] if got['values'].get(k) != exp['values'][k]]
             if diff:
                 k = diff[0]
-                ev = next(e for e in b['evals'] if e['key'] == k)
+                ev = next((e for e in b['evals'] if e['key'] == k), {'kind': 'side_effect_log'})
                 res['violations'].append(core.violation('eval.value', f'build #{i} ({hist} in history, {mode}): node {k} gives {got["values"].get(k)!r}, Python gives {exp["values"][k]!r}\n{_doc_text(b)}'[:1800], kind=ev['kind'], history=hist, mode=mode))
                 break
     if v['switches'] > 2:
